@@ -21,7 +21,7 @@ pub fn property() -> Property {
         level: "fault_enumeration",
         rule: "https requests carrying unique marker strings (path, query, header, cookie, body, Basic credentials) are sent through a scripted proxy connection (http and https proxy URLs, with and without userinfo; origin hosts domain/IPv4/IPv6 x default/explicit port). The proxy side is a scripted reply: EVERY status 100..599 (exhaustive), reply heads cut at EVERY byte offset, garbage heads, heads > 8 KiB, refusal bodies {empty, 11 B, 10 239, 10 240, 262 144 B, endless} with and without a Content-Length announced by the proxy, served whole / bytewise / in random segments; for 2xx replies the client is then spliced onto a live TLS server (bridge) whose certificate is either valid for the origin's name or only for the proxy's name (private CA added as root). Oracle on the transport trace, where every write carries the number of reply bytes the client had consumed: first bytes are `CONNECT origin-host:effective-port HTTP/1.1` (IPv6 bracketed); Proxy-Authorization decodes to the proxy URL's credentials; NO write between the end of the CONNECT head and the read that delivered the last byte of a 2xx reply head; NO byte written after a non-2xx, truncated or garbage reply; the error is ConnectError{status, body} with body <= 10 240 bytes and a prefix of what the proxy sent; no marker (plain or base64) in the raw bytes written to the proxy; the request decrypted inside the tunnel carries no Proxy-Authorization; the handshake succeeds against the certificate for the origin's name and fails against one valid only for the proxy's name. Non-trivial: every case; distinct = hash(reply bytes, segmentation, configuration).",
         assumptions: &["proxy credentials are drawn from unreserved characters (percent-decoding of userinfo is not fixed by the statement)", "the `Proxy-Authorization: Basic Og==` sent for proxies without credentials is recorded, not judged"],
-        min_nontrivial: |t| t.pick(1_000, 20_000),
+        min_nontrivial: |t| t.pick(1_000, 10_000),
         gens,
         required_counters: &["status_2xx_tunnels", "status_non2xx_refusals", "cut_offsets", "garbage_replies", "refusal_body_10241", "endless_refusal_bodies", "handshakes_completed", "wrong_name_cert_rejected", "ipv6_origins", "proxy_with_credentials", "https_proxy_cases", "bytewise_replies"],
         max_shards: 32,
@@ -33,6 +33,7 @@ fn gens(tier: Tier) -> Vec<Gen> {
         Gen { name: "status", count: 500, exhaustive: true, run: run_status },
         Gen { name: "cuts", count: cuts_count(), exhaustive: true, run: run_cuts },
         Gen { name: "bodies", count: 6 * 3 * 2 * 2, exhaustive: true, run: run_bodies },
+        Gen { name: "refusal-then-io-error", count: (4 * 3 * 3) as u64, exhaustive: true, run: run_refusal_then_error },
         Gen { name: "matrix", count: (3 * 2 * 2 * 3 * 2) as u64, exhaustive: true, run: run_matrix },
         Gen { name: "garbage", count: tier.pick(800, 30_000), exhaustive: false, run: run_garbage },
         Gen { name: "tunnels", count: tier.pick(400, 6_000), exhaustive: false, run: run_tunnel_random },
@@ -40,7 +41,7 @@ fn gens(tier: Tier) -> Vec<Gen> {
     ]
 }
 
-const MARKERS: [&str; 8] = ["MARKER-PATH-7f3a", "MARKER-QUERY-91c2", "MARKER-HEADER-55e1", "MARKER-COOKIE-0b7d", "MARKER-BODY-c4c4", "MARKER-USER-aa10", "MARKER-URLUSER-3e3e", "MARKER-URLPASS-9d9d"];
+const MARKERS: [&str; 10] = ["MARKER-PATH-7f3a", "MARKER-QUERY-91c2", "MARKER-HEADER-55e1", "MARKER-COOKIE-0b7d", "MARKER-BODY-c4c4", "MARKER-USER-aa10", "MARKER-URLUSER-3e3e", "MARKER-URLPASS-9d9d", "MARKER-SESSIONKEY-1c1c", "MARKER-SESSIONCOOKIE-2d2d"];
 
 #[derive(Clone, Debug)]
 struct Config {
@@ -70,7 +71,13 @@ impl Config {
     }
     fn builder(&self) -> RequestBuilder<attohttpc::body::Text<String>> {
         let pu = Url::parse(&self.proxy_url()).unwrap();
-        let mut rb = attohttpc::post(self.origin_url())
+        // session-level defaults travel with every request of the session: they are the caller's
+        // headers too and must not appear on the proxy side either
+        let mut sess = attohttpc::Session::new();
+        sess.header("X-Session-Key", MARKERS[8]);
+        sess.header_append("Cookie", format!("sid={}", MARKERS[9]));
+        let mut rb = sess
+            .post(self.origin_url())
             .proxy_settings(ProxySettings::builder().https_proxy(pu).build())
             .header("X-Secret", MARKERS[2])
             .header("Cookie", format!("session={}", MARKERS[3]))
@@ -129,7 +136,7 @@ fn judge_connect_head(ctx: &mut Ctx, cfg: &Config, t: &Trace, descr: &dyn Fn(&st
     }
     // caller's headers must not be copied into the CONNECT head
     for (k, _) in &p.headers {
-        if matches!(k.as_str(), "x-secret" | "cookie" | "authorization" | "content-length" | "content-type") {
+        if matches!(k.as_str(), "x-secret" | "x-session-key" | "cookie" | "authorization" | "content-length" | "content-type") {
             ctx.violation("request-header-in-connect-head", descr(&format!("the CONNECT head carries the caller's {k:?} field")));
         }
     }
@@ -609,4 +616,34 @@ fn run_redirect_into_tunnel(ctx: &mut Ctx, rng: &mut Rng, index: u64) {
         (r, s) => ctx.violation("tunnel-failed-after-2xx", descr(&format!("result {:?}, server {:?}", r.as_ref().map(|x| x.status().as_u16()).map_err(|e| format!("{e:?}")), s.as_ref().map(|s| (s.handshake_ok, s.handshake_error.clone()))))),
     }
     ctx.nontrivial(format!("rit{index}").as_bytes());
+}
+
+/// the proxy refuses and then keeps the connection open: reading its diagnostic body ends in an
+/// I/O error (read timeout, reset) instead of a close. A refusal stays a refusal.
+fn run_refusal_then_error(ctx: &mut Ctx, rng: &mut Rng, index: u64) {
+    let status = [403u16, 407, 502, 301][(index % 4) as usize];
+    let kind = [std::io::ErrorKind::TimedOut, std::io::ErrorKind::WouldBlock, std::io::ErrorKind::ConnectionReset][((index / 4) % 3) as usize];
+    let body: &[u8] = [&b""[..], b"denied", b"a longer explanation of why the tunnel was refused\n"][((index / 12) % 3) as usize];
+    let cfg = Config::basic();
+    let mut wire = reply_head(status, false);
+    wire.extend_from_slice(body);
+    let mut steps = seg(rng, index, &wire);
+    steps.push(Step::ErrSticky(kind));
+    let descr = |x: &str| format!("{x}; refusal {status} with body {:?}, then the connection yields {kind:?} instead of closing", show(body));
+    let run = match run_scripted(&cfg, steps) {
+        Some(r) => r,
+        None => return ctx.violation("no-dial", descr("no connection was made")),
+    };
+    let head_len = match judge_common(ctx, &cfg, &run, &descr) {
+        Some(h) => h,
+        None => return,
+    };
+    if run.trace.written.len() > head_len {
+        ctx.violation("bytes-written-after-refusal", descr(&format!("{} bytes were written to the proxy after it refused: {}", run.trace.written.len() - head_len, show(&run.trace.written[head_len..run.trace.written.len().min(head_len + 40)]))));
+    }
+    if run.result.is_ok() {
+        ctx.violation("refused-tunnel-succeeded", descr("send() returned Ok"));
+    }
+    ctx.count("refusals_followed_by_io_error", 1);
+    ctx.nontrivial(format!("rte{index}").as_bytes());
 }
